@@ -301,8 +301,52 @@ def fam_long(case):
                     rqa.max_length(hv))}
 
 
+OBJECT_DRIVERS = ("RecurrencePlot", "RecurrenceNetwork",
+                  "JointRecurrencePlot", "JointRecurrenceNetwork")
+
+
+def fam_objects(case):
+    """The line statistics are inherited by the network and joint classes
+    (which keep their matrix in another attribute): on every such object -
+    fresh and after each public mutator of its class driver - the histograms
+    must be the run-length counts of the object's OWN recurrence_matrix()."""
+    from .. import drivers as D
+    dname, mi, k = case
+    drv = D.DRIVERS[dname]
+    model = drv.models("thorough")[mi]
+    if model.get("sparse_rqa"):
+        return {"viol": [], "evals": 0, "trivial": True,
+                "excluded": {"sequential mode keeps no matrix": 1}}
+    obj = drv.construct(model)
+    tag = dname
+    if k >= 0:
+        muts = drv.mutators(model)
+        if k >= len(muts):
+            return {"viol": [], "evals": 0, "trivial": True}
+        try:
+            if drv.apply(obj, model, muts[k][1]) is None:
+                return {"viol": [], "evals": 0, "trivial": True}
+        except Exception:   # noqa  (C01 / C07 judge mutators that raise)
+            return {"viol": [], "evals": 0, "trivial": True}
+    try:
+        R = np.asarray(obj.recurrence_matrix()).astype(int)
+    except Exception:   # noqa
+        return {"viol": [], "evals": 0, "trivial": True,
+                "excluded": {"no recurrence matrix": 1}}
+    n = len(R)
+    viol = []
+    t = "plain" if np.array_equal(R, R.T) else "asym"
+    hd, hv, hw = _hist_check(obj, R.tolist(), None, t, viol)
+    ev = 3 + _check_measures(obj, hd, hv, hw, n, t, viol)
+    for v in viol:
+        if ":asym" not in v["key"]:
+            v["key"] += ":object=" + tag
+    return {"viol": viol, "evals": ev, "trivial": n <= 1,
+            "sig": (dname, mi, k, tuple(hd), tuple(hv))}
+
+
 FAMILIES = {"crafted": fam_crafted, "assigned": fam_assigned, "f32": fam_f32,
-            "long": fam_long}
+            "long": fam_long, "objects": fam_objects}
 
 
 def run(ctx):
@@ -329,6 +373,20 @@ def run(ctx):
                     if mvb == (1 << n) - 1 and n > 1:
                         continue
                     cases.append((n, m, sparse, mvb))
+    from .. import drivers as D
+    oc = []
+    for dname in OBJECT_DRIVERS:
+        drv = D.DRIVERS[dname]
+        for mi, model in enumerate(drv.models("thorough")):
+            oc.append([dname, mi, -1])
+            try:
+                oc += [[dname, mi, k]
+                       for k in range(len(drv.mutators(model)))]
+            except Exception:   # noqa
+                pass
+    ctx.explore("objects", oc, chunk=1, desc="plots, recurrence networks, "
+                "joint plots and joint networks (fresh and after each "
+                "mutator): histograms vs run-length count of their own matrix")
     ctx.explore("crafted", cases, desc="crafted series realising every "
                 "symmetric matrix")
     M = 4 if thorough else 3
